@@ -13,6 +13,13 @@ val length : 'a1 list -> nat
 
 val app : 'a1 list -> 'a1 list -> 'a1 list
 
+type comparison =
+| Eq
+| Lt
+| Gt
+
+val compOpp : comparison -> comparison
+
 type uint =
 | Nil
 | D0 of uint
@@ -60,18 +67,35 @@ type n =
 | N0
 | Npos of positive
 
+type z =
+| Z0
+| Zpos of positive
+| Zneg of positive
+
 module Nat :
  sig
   val sub : nat -> nat -> nat
+
+  val eqb : nat -> nat -> bool
 
   val leb : nat -> nat -> bool
 
   val divmod : nat -> nat -> nat -> nat -> nat * nat
 
   val modulo : nat -> nat -> nat
+
+  val div2 : nat -> nat
  end
 
 module Pos :
+ sig
+  type mask =
+  | IsNul
+  | IsPos of positive
+  | IsNeg
+ end
+
+module Coq_Pos :
  sig
   val succ : positive -> positive
 
@@ -79,7 +103,30 @@ module Pos :
 
   val add_carry : positive -> positive -> positive
 
+  val pred_double : positive -> positive
+
+  type mask = Pos.mask =
+  | IsNul
+  | IsPos of positive
+  | IsNeg
+
+  val succ_double_mask : mask -> mask
+
+  val double_mask : mask -> mask
+
+  val double_pred_mask : positive -> mask
+
+  val sub_mask : positive -> positive -> mask
+
+  val sub_mask_carry : positive -> positive -> mask
+
   val mul : positive -> positive -> positive
+
+  val size_nat : positive -> nat
+
+  val compare_cont : comparison -> positive -> positive -> comparison
+
+  val compare : positive -> positive -> comparison
 
   val eqb : positive -> positive -> bool
 
@@ -98,13 +145,41 @@ module Pos :
 
 module N :
  sig
+  val succ_double : n -> n
+
+  val double : n -> n
+
   val succ : n -> n
 
   val add : n -> n -> n
 
+  val sub : n -> n -> n
+
   val mul : n -> n -> n
 
+  val compare : n -> n -> comparison
+
   val eqb : n -> n -> bool
+
+  val leb : n -> n -> bool
+
+  val ltb : n -> n -> bool
+
+  val div2 : n -> n
+
+  val even : n -> bool
+
+  val odd : n -> bool
+
+  val size_nat : n -> nat
+
+  val pos_div_eucl : positive -> n -> n * n
+
+  val div_eucl : n -> n -> n * n
+
+  val div : n -> n -> n
+
+  val modulo : n -> n -> n
 
   val to_nat : n -> nat
 
@@ -133,6 +208,8 @@ val n_of_ascii : char -> n
 
 val nat_of_ascii : char -> nat
 
+val nth_error : 'a1 list -> nat -> 'a1 option
+
 val map : ('a1 -> 'a2) -> 'a1 list -> 'a2 list
 
 val flat_map : ('a1 -> 'a2 list) -> 'a1 list -> 'a2 list
@@ -151,6 +228,29 @@ val firstn : nat -> 'a1 list -> 'a1 list
 
 val skipn : nat -> 'a1 list -> 'a1 list
 
+module Z :
+ sig
+  val double : z -> z
+
+  val succ_double : z -> z
+
+  val pred_double : z -> z
+
+  val pos_sub : positive -> positive -> z
+
+  val add : z -> z -> z
+
+  val opp : z -> z
+
+  val compare : z -> z -> comparison
+
+  val ltb : z -> z -> bool
+
+  val to_N : z -> n
+
+  val of_N : n -> z
+ end
+
 val string_dec : char list -> char list -> bool
 
 val eqb1 : char list -> char list -> bool
@@ -164,6 +264,8 @@ val get : nat -> char list -> char option
 val substring : nat -> nat -> char list -> char list
 
 val prefix : char list -> char list -> bool
+
+val string_of_list_ascii : char list -> char list
 
 type kind =
 | KScript
@@ -507,6 +609,61 @@ val to_config_with :
   (char list -> node list) -> (nat -> nat) -> raw_config -> config
 
 val to_config : (nat -> nat) -> raw_config -> config
+
+type pos = n * n
+
+val ple : pos -> pos -> bool
+
+val plt : pos -> pos -> bool
+
+type 'a token = pos * 'a
+
+val lookup_from :
+  'a1 token option -> 'a1 token list -> pos -> 'a1 token option
+
+val lookup : 'a1 token list -> pos -> 'a1 token option
+
+val find_loop : nat -> 'a1 token list -> nat -> nat -> pos -> nat
+
+val find_entry : 'a1 token list -> pos -> 'a1 token option
+
+val chain : pos token list -> 'a1 token list -> 'a1 token list
+
+val b64_alphabet : char list
+
+val index_of : char -> char list -> n -> n option
+
+val b64_digit : char -> n option
+
+val b64_char : n -> char
+
+val zigzag : z -> n
+
+val unzigzag : n -> z
+
+val digits : nat -> n -> n list
+
+val vlq_digits : z -> n list
+
+val undigits : n list -> (n * n list) option
+
+val vlq_decode_digits : n list -> (z * n list) option
+
+val vlq_encode : z -> char list
+
+val b64_prefix : char list -> n list * char list
+
+val vlq_all : nat -> n list -> z list option
+
+type raw_token = { rt_gl : n; rt_gc : z; rt_src : ((z * z) * z) option;
+                   rt_name : z option }
+
+type dstate = { d_line : n; d_col : z; d_src : z; d_sl : z; d_sc : z;
+                d_name : z }
+
+val decode_mappings_from : nat -> char list -> dstate -> raw_token list option
+
+val decode_mappings : char list -> raw_token list option
 
 module NilEmpty :
  sig
